@@ -4,6 +4,11 @@
 // memory made right after a lock has been dropped (e.g. a mutator that checks IsRecording() and then
 // touches the recordable without holding the span's mutex) cannot be separated from that lock operation
 // by the scheduler; ThreadSanitizer sees it as a data race. Sampling; assumption check.
+//
+// Every SDK override of a span mutator is in the rotation: the four Span::AddEvent bodies (name / name+time / name+attributes /
+// name+time+attributes, the latter also through the initializer-list helpers), SetAttribute with scalar, string, array and
+// string-array values, UpdateName, SetStatus, End, the readers IsRecording / GetContext, and - in the ABI v2 build
+// (c04_tsan_abi2) - AddLink and AddLinks. Each has its own hand-written lock + "still recording" guard in sdk/src/trace/span.cc.
 #include <opentelemetry/logs/logger.h>
 #include <opentelemetry/sdk/common/global_log_handler.h>
 #include <opentelemetry/sdk/logs/exporter.h>
@@ -26,13 +31,23 @@ namespace nostd = opentelemetry::nostd;
 namespace sdkc = opentelemetry::sdk::common;
 namespace sdkt = opentelemetry::sdk::trace;
 namespace sdkl = opentelemetry::sdk::logs;
+namespace trace_api = opentelemetry::trace;
 using namespace std::chrono;
+#if OPENTELEMETRY_ABI_VERSION_NO >= 2
+static const int kOps = 16;
+#else
+static const int kOps = 14;
+#endif
 
 static std::atomic<long> g_spans{0}, g_logs{0};
 struct SpanExp final : sdkt::SpanExporter {
   std::unique_ptr<sdkt::Recordable> MakeRecordable() noexcept override { return std::unique_ptr<sdkt::Recordable>(new sdkt::SpanData()); }
   sdkc::ExportResult Export(const nostd::span<std::unique_ptr<sdkt::Recordable>> &b) noexcept override {
-    for (auto &r : b) { auto *d = static_cast<sdkt::SpanData *>(r.get()); g_spans += (long)d->GetName().size() + (long)d->GetAttributes().size() + (long)d->GetEvents().size(); }
+    for (auto &r : b) {
+      auto *d = static_cast<sdkt::SpanData *>(r.get());
+      g_spans += (long)d->GetName().size() + (long)d->GetAttributes().size() + (long)d->GetEvents().size() + (long)d->GetLinks().size();
+      for (auto &e : d->GetEvents()) g_spans += (long)e.GetAttributes().size();
+    }
     return sdkc::ExportResult::kSuccess;
   }
   bool ForceFlush(microseconds) noexcept override { return true; }
@@ -55,6 +70,9 @@ int main(int argc, char **argv) {
   sdkl::LoggerProvider lprov(std::move(lp), opentelemetry::sdk::resource::Resource::GetEmpty());
   auto tracer = tp.GetTracer("t");
   auto logger = lprov.GetLogger("l", "lib");
+  const uint8_t tid[16] = {1, 2, 3, 4, 5, 6, 7, 8, 9, 10, 11, 12, 13, 14, 15, 16}, sid[8] = {1, 2, 3, 4, 5, 6, 7, 8};
+  const trace_api::SpanContext target(trace_api::TraceId(tid), trace_api::SpanId(sid), trace_api::TraceFlags(1), true);
+  (void)target;
   for (int it = 0; it < iters; ++it) {
     auto span = tracer->StartSpan("s");
     std::atomic<int> go{0};
@@ -62,12 +80,33 @@ int main(int argc, char **argv) {
       go++;
       while (go.load() < 3) {}
       for (int i = 0; i < 3; ++i) {
-        switch ((t + i + it) % 5) {
+        opentelemetry::common::SystemTimestamp ts(std::chrono::system_clock::now());
+        // the stride changes with the round so that, over the iterations, every operation meets every other one (and End) on another thread
+        switch ((t * (1 + it / kOps % (kOps - 1)) + i + it) % kOps) {
           case 0: span->SetAttribute("k", (int64_t)i); break;
           case 1: span->AddEvent("e"); break;
           case 2: span->UpdateName("renamed"); break;
-          case 3: span->SetStatus(opentelemetry::trace::StatusCode::kError, "d"); break;
-          default: span->End(); break;
+          case 3: span->SetStatus(trace_api::StatusCode::kError, "d"); break;
+          case 4: span->End(); break;
+          case 5: span->AddEvent("e-ts", ts); break;                                          // Span::AddEvent(name, timestamp)
+          case 6: {                                                                           // Span::AddEvent(name, KeyValueIterable)
+            std::vector<std::pair<nostd::string_view, opentelemetry::common::AttributeValue>> kv = {{"k", (int64_t)i}, {"s", "v"}};
+            span->AddEvent("e-attrs", kv);
+            break;
+          }
+          case 7: span->AddEvent("e-ts-attrs", ts, {{"k", (int64_t)i}, {"s", "v"}}); break;  // Span::AddEvent(name, timestamp, KeyValueIterable)
+          case 8: span->AddEvent("e-list", {{"k", (int64_t)i}}); break;                      // helper: (name, now, KeyValueIterable)
+          case 9: span->SetAttribute("s", "text"); break;
+          case 10: { const int32_t a[3] = {1, 2, i}; span->SetAttribute("a", nostd::span<const int32_t>(a, 3)); break; }
+          case 11: { const nostd::string_view a[2] = {"x", "yy"}; span->SetAttribute("sa", nostd::span<const nostd::string_view>(a, 2)); break; }
+          case 12: g_spans += (long)span->IsRecording(); break;
+          case 13: g_spans += (long)span->GetContext().IsValid(); break;
+#if OPENTELEMETRY_ABI_VERSION_NO >= 2
+          case 14: span->AddLink(target, {{"k", (int64_t)i}}); break;                         // Span::AddLink
+          default: span->AddLinks({{target, {{"k", (int64_t)i}}}, {target, {}}}); break;      // Span::AddLinks
+#else
+          default: break;
+#endif
         }
       }
       {
